@@ -710,6 +710,27 @@ func init() {
 				in.Steps = append(in.Steps, step("probe", "", "", false))
 				return []lcw.Input{in}
 			}
+			if mode == "fail" && r.Chance(1, 10) { // umount -all of a mounted chain: every umount fails in turn, also the base layer's
+				ws, in := world(r, true)
+				t := pickLayer(r, ws).Name
+				in.Steps = append(in.Steps, step("mount", t, "", false))
+				probeIn := in
+				cmd := step("umount", "", "", true)
+				probeIn.Steps = append(append([]lcw.StepIn{}, in.Steps...), cmd)
+				_, obs, err := lcw.Run(probeIn)
+				if err != nil || len(obs) != len(probeIn.Steps) {
+					return nil
+				}
+				var out []lcw.Input
+				for k := 0; k < len(obs[len(obs)-1].Ops) && k < 12; k++ {
+					c := cmd
+					c.Env = lcw.Env{Fault: mode, K: k, Verbose: r.Chance(1, 3)}
+					x := in
+					x.Steps = append(append([]lcw.StepIn{}, in.Steps...), c, step("probe", "", "", false))
+					out = append(out, x)
+				}
+				return out
+			}
 			ws, in := world(r, true)
 			if mode == "crash" && r.Chance(1, 2) { // odd but loadable layerconfigs
 				for i := range ws.Layers {
